@@ -2,7 +2,7 @@
 import ast
 
 from ..pymodel import AnalysisError, FuncInfo, parent
-from ..astutil import (src, is_name, is_const, const_num, call_name, walk_no_nested, strip_docstring,
+from ..astutil import (expand_names, src, is_name, is_const, const_num, call_name, walk_no_nested, strip_docstring,
                        compare_atoms, enclosing_stmt, calls_in, names_in, assignments_to)
 from ..cfg import cfg_of, ENTRY, EXIT
 from ..effects import Effects, root
@@ -130,6 +130,31 @@ def rules(ctx):
                      "the previous value is added before the store/removal decision on every path" if okd else
                      "the previous value of the reduced key is added only on some paths (`%s` is conditional): on the "
                      "other paths the store/removal discards what was accumulated before" % src(accs[0]))
+        # every complete iteration either stores the reduced key or removes it (zero-drop of the accumulated value)
+        for path in g.iteration_paths(lp):
+            if path[-1][0] is not lp:
+                continue
+            facts = []
+            touched = False
+            for node, lab in path:
+                if lab and lab[0] not in ('iter', 'exc'):
+                    facts += compare_atoms(lab[0], lab[1])
+                if node in stores:
+                    touched = True
+                if isinstance(node, ast.Expr) and isinstance(node.value, ast.Call) and call_name(node.value) in ('pop', '__delitem__') \
+                        and is_name(node.value.func.value, res or ''):
+                    touched = True
+                if isinstance(node, ast.Delete):
+                    touched = True
+            if ('falsy', kv) in facts and is_sub:
+                continue          # the constant term skipped by subgraph
+            if not touched:
+                ctx.inst('R18.3', fn, 'iteration path under %s' % [f for f in facts if f[0] in ('truthy', 'falsy')][-2:], False,
+                         "an iteration ends without storing or removing the reduced key: a value accumulated earlier under "
+                         "that key stays although the terms now cancel")
+                break
+        else:
+            ctx.inst('R18.3', fn, 'every iteration stores or removes the reduced key', True, "store / removal on every path")
         # R18.4 constant handling
         skips = [n for n in ast.walk(lp) if isinstance(n, ast.Continue)]
         sk = False
@@ -159,9 +184,9 @@ def rules(ctx):
         src_name = nz.params[0] if tgt is None else R.self_name(fn)
         valp = fn.params[1]
         loops = [n for n in g.stmts() if isinstance(n, ast.For)]
-        facs = [(n_, n_.value) for n_ in walk_no_nested(strip_docstring(fn.node.body)) if isinstance(n_, ast.Assign)
+        facs = [(n_, expand_names(fn.node, n_.value)) for n_ in walk_no_nested(strip_docstring(fn.node.body)) if isinstance(n_, ast.Assign)
                 and len(n_.targets) == 1 and isinstance(n_.targets[0], ast.Name) and isinstance(n_.value, ast.BinOp)
-                and isinstance(n_.value.op, ast.Div) and 'max(' in src(n_.value.right)]
+                and isinstance(n_.value.op, ast.Div) and 'max(' in src(expand_names(fn.node, n_.value.right))]
         if not facs or not loops:
             raise AnalysisError("normalize (%s): factor / loop not recognised" % fn.qual)
         s_, v = facs[0]
